@@ -3,6 +3,8 @@ import GwModel.Select
 import GwModel.Gen.Facts
 import GwModel.PlanTotal
 import GwModel.PlanFuel
+import GwModel.PlanTerm
+import GwModel.Route
 /-! # C08 — Planning is total: always returns, with a plan for every valid query
 
 Model level: (1) step discovery through the queue discipline the source uses (extracted on every run)
@@ -85,6 +87,61 @@ theorem extract_selection_is_total {env : Pl.Env} (hr : Pl.RoutesNonempty env) (
     | noLocalFragment n => exact absurd hb (by simp [Pl.Benign])
     | noWrapDefn => exact absurd hb (by simp [Pl.Benign])
     | crash s => exact absurd hb (by simp [Pl.Benign])
+
+/-- **A routed document is never refused for want of a location** (documents without named fragments): whatever the
+    planner does with the selection — bundling for other services, re-wrapping in the inline fragments a bundle was
+    found under, merging into pending steps, descending — every field it looks up is one the document named, read
+    against the type the document named it under.  `Pl.routedL env T sels`: every field of `sels` has an entry in the
+    routing table under the type it is selected on. -/
+theorem a_routed_document_is_never_refused_for_want_of_a_location {env : Pl.Env} {fuel : Nat} {operation : String}
+    {sels : List Pl.Sel} (hns : Pl.noSpreadL sels = true) (hr : Pl.routedL env (Pl.rootTypeOf operation) sels = true)
+    (t f : String) : Pl.planOperation env fuel operation sels ≠ .error (.noRoute t f) :=
+  Pl.planOperation_routed hns hr t f
+
+/-- … and the routing table has an entry for every field a service declares (`Route`, the model of `fieldURLs`, tied by
+    the L1.routing correspondence of C03): so every field of a document that validates against the merged schema —
+    each field of which is declared by some service — is routed -/
+theorem a_declared_field_has_a_location (srcs : List Route.Src) (internal : Route.Src) (gwTypes : List String)
+    (t f : String) (s : Route.Src) (hs : s ∈ srcs) (hd : Route.declares s t f = true) (hi : Route.isIntrospection t f = false) :
+    Route.urlsFor srcs internal gwTypes t f ≠ [] := by
+  intro h
+  have : s.url ∈ Route.urlsFor srcs internal gwTypes t f := by
+    unfold Route.urlsFor
+    simp only [List.mem_append, List.mem_map, List.mem_filter, Bool.and_eq_true, Bool.not_eq_true']
+    exact Or.inl (Or.inl ⟨s, ⟨hs, hd, hi⟩, rfl⟩)
+  rw [h] at this; cases this
+
+/-- **Planning terminates** (documents without named fragments): with more fuel than the nesting depth of the document
+    and than its number of fields plus one, the model never runs out of fuel — not inside one `extractSelection`
+    (the nesting of everything the planner queues, wrappers included, stays within the document's), and not in the
+    work list of `generatePlans`: every pending step other than the root is anchored — it holds a client field whose
+    service is chosen again when asked from that service (`no_ping_pong`) — so it keeps at least one field for itself,
+    and the number of client fields still waiting strictly decreases with every step built. -/
+theorem planning_does_not_run_out_of_fuel {env : Pl.Env} {fuel : Nat} {operation : String} {sels : List Pl.Sel}
+    (hns : Pl.noSpreadL sels = true) (hu : Pl.unmarkedL sels = true) (hd : Pl.depthL sels < fuel)
+    (hc : Pl.cfcL sels + 1 < fuel) : Pl.planOperation env fuel operation sels ≠ .error .fuel :=
+  Pl.planOperation_no_fuel hns hu hd hc
+
+/-- **A valid query gets a plan** (documents without named fragments): for every routing table without empty entries,
+    every priority list and every routed document, with enough fuel planning ends with a plan. -/
+theorem a_routed_document_without_named_fragments_gets_a_plan {env : Pl.Env} (hr : Pl.RoutesNonempty env) {fuel : Nat}
+    {operation : String} {sels : List Pl.Sel} (hns : Pl.noSpreadL sels = true) (hu : Pl.unmarkedL sels = true)
+    (hrt : Pl.routedL env (Pl.rootTypeOf operation) sels = true) (hd : Pl.depthL sels < fuel)
+    (hc : Pl.cfcL sels + 1 < fuel) : ∃ steps, Pl.planOperation env fuel operation sels = .ok steps :=
+  Pl.planOperation_total hr hns hu hrt hd hc
+
+/-- non-vacuity of the hypotheses: `{ me { firstName ... on User { lastName nick } } }` over three services -/
+def exEnv : Pl.Env :=
+  { routes := [("Query.me", ["A"]), ("User.firstName", ["A"]), ("User.lastName", ["B", "C"]), ("User.nick", ["C"]),
+               ("User.id", ["A", "B", "C"])],
+    configured := [], internal := "gw", planFrags := [] }
+def exSels : List Pl.Sel :=
+  [.field "me" "me" "" [] [] "User" [.field "firstName" "firstName" "" [] [] "String" [],
+     .inline "User" [] [.field "lastName" "lastName" "" [] [] "String" [], .field "nick" "nick" "" [] [] "String" []]]]
+example : Pl.noSpreadL exSels = true ∧ Pl.unmarkedL exSels = true ∧ Pl.routedL exEnv "Query" exSels = true ∧
+    Pl.depthL exSels < 10 ∧ Pl.cfcL exSels + 1 < 10 := by decide
+example : (Pl.planOperation exEnv 10 "query" exSels).toOption.map (fun steps => steps.map (fun s => (s.location, s.ip))) =
+    some [("", []), ("A", []), ("B", ["me"]), ("C", ["me"])] := by decide
 
 /-- non-vacuity: an unroutable field is reported as such, and a routable document under fragments and
     wrappers plans -/
